@@ -56,3 +56,10 @@ def full_snapshot(sim):
     """Complete state + every inspection result (the inspection calls are made on the live object: C16 decides
     that they are pure; C13 uses this only at points where a second call sequence is compared with the same calls)."""
     return (state_canon(sim), tuple((n, canon(f())) for n, f in functions(sim).items()))
+
+
+def observables(sim):
+    """What a user can observe: the result of every inspection function plus has_started. Comparisons between two
+    simulations use this (never raw internal state: internal caches may legitimately differ); the raw canonical state is
+    only used as a (finer) key for deduplication."""
+    return (tuple((n, canon(f())) for n, f in functions(sim).items()), bool(getattr(sim, "has_started", False)))
